@@ -63,6 +63,26 @@ def boom(x):
     raise ValueError("boom")
 
 
+class Res:
+    """a resource with an observable finalizer"""
+
+    def __init__(self, tag):
+        self.tag = tag
+
+    def __del__(self):
+        print("released", self.tag)
+
+
+def fails_holding(res):
+    held = res
+    raise ValueError("boom while holding " + held.tag)
+
+
+def returns_holding(res):
+    held = res
+    return held.tag
+
+
 def workload(make, make2, role):
     v = make()
     out = []
@@ -122,6 +142,16 @@ def workload(make, make2, role):
             boom(v)
         except ValueError as e:
             out.append(str(e))
+    elif role == "finalizer":
+        # when a traced call raises, its frame (and what it holds) must be released when it would be untraced
+        try:
+            fails_holding(Res("r1"))
+        except ValueError as e:
+            print("handled", e)
+        print("after handler")
+        out.append(returns_holding(Res("r2")))
+        print("after return")
+        out.append(type(ident(v)).__name__)
     elif role == "consume":
         r = ident(v)
         try:
@@ -134,4 +164,4 @@ def workload(make, make2, role):
 
 
 ROLES = ["arg", "kwarg", "elem", "nested-elem", "dictkey", "setelem", "yield", "return-only", "receiver", "method-arg",
-         "coro-arg", "global", "caller-local", "exception", "consume"]
+         "coro-arg", "global", "caller-local", "exception", "consume", "finalizer"]
